@@ -53,6 +53,7 @@ def run(ck: Checker, prog: Program, tier: str):
     ck.guard(_r6_inner, ck, prog, inner)
     ck.guard(_r6_outer, ck, prog, inner, outer)
     ck.guard(S.check_alias_discipline, ck, prog, "C06.R4", floor=3)
+    ck.guard(_entry_state, ck, prog, outer)
 
 
 def _iteration_loop(inner) -> ast.For:
@@ -443,6 +444,72 @@ def _r6_inner(ck: Checker, prog: Program, inner):
             ck.violation("C06.R6", INNER, f"{p} rebound", f"parameter `{p}` is rebound inside the routine", loc=inner.loc())
     # ---- the mean-curve peak honours the object's search range; the peak search does not depend on the amplitude scale
     _peak_search(ck, prog)
+
+
+def _entry_state(ck: Checker, prog: Program, outer):
+    """The algorithm starts from the accept state of the peak search it performs on entry.  The search of a window object can be
+    skipped (arguments equal to the remembered ones): with the default find_peaks arguments of the rejection (None) that must be
+    impossible - the remembered value is never None - or the rejection has to establish the starting state itself.  (With an
+    explicitly given dict equal to the remembered one the search *is* skipped on today's tree; see DESIGN.md, observations.)"""
+    from ..pathtable import PathTable, literals, specialise
+    from .c08 import _static_hook
+    cls = prog.cls("HvsrTraditional")
+    m = cls.methods["update_peaks_bounded"]
+    kwp = "find_peaks_kwargs"
+    if kwp not in m.params or m.defaults().get(kwp) is None or not (isinstance(m.defaults()[kwp], ast.Constant) and m.defaults()[kwp].value is None):
+        raise AnalysisError(f"{m.qualname}: default of `{kwp}` is not None")
+    od = outer.defaults().get(kwp)
+    if not (isinstance(od, ast.Constant) and od.value is None):
+        raise AnalysisError(f"{OUTER}: default of `{kwp}` is not None")
+    # what the object can remember
+    kinds = set()
+
+    def kind_of(v):
+        if isinstance(v, ast.IfExp):
+            return kind_of(v.body) | kind_of(v.orelse)
+        if isinstance(v, ast.Dict) or (isinstance(v, ast.Call) and call_name(v) in ("dict", "copy", "deepcopy")):
+            return {"dict"}
+        if isinstance(v, ast.Constant):
+            return {"none"} if v.value is None else {"text"}
+        return {"?" + unparse(v)[:40]}
+    n_st = 0
+    for mm in cls.methods.values():
+        for st in own_nodes(mm.node):
+            if isinstance(st, ast.Assign) and any(unparse(t) == "self._find_peaks_kwargs" for t in st.targets):
+                kinds |= kind_of(st.value)
+                n_st += 1
+    if n_st == 0:
+        raise AnalysisError(f"{cls.name}: the remembered find_peaks arguments are never stored")
+    unknown = [k for k in kinds if k.startswith("?")]
+    R = lambda n: sp.Symbol(n, real=True)   # noqa: E731
+    KW, SKW, NONE = R(kwp), R("self._find_peaks_kwargs"), sp.Symbol("None")
+    leaves = PathTable(prog, m.module, call_hook=_static_hook(prog, m.module), unroll=True).leaves(m.node.body)
+    skipping = [l for l in leaves if l.exit != "raise" and not any(e[0] == "loop" for e in l.events)
+                and not any(e[0] == "store" and "boolean_mask" in e[1] for e in l.events)]
+    feasible = []
+    for l in skipping:
+        tests = [x for x in literals(l) if SKW in x.free_symbols]
+        decided = False
+        for x in tests:
+            if isinstance(x, sp.Eq):
+                other = x.rhs if x.lhs == SKW else x.lhs if x.rhs == SKW else None
+                if other is not None and specialise(other, {KW: NONE}) == NONE and "none" not in kinds and not unknown:
+                    decided = True          # None == <a dict or a text>: never
+        if not decided:
+            feasible.append(l)
+    resets = [st for st in own_nodes(outer.node) if isinstance(st, (ast.Assign, ast.AugAssign))
+              and any("boolean_mask" in unparse(t) for t in (st.targets if isinstance(st, ast.Assign) else [st.target]))]
+    if not feasible:
+        ck.ok("C06.R6", m.qualname, "with the default find_peaks arguments the peak search on entry is never skipped",
+              detail=f"{len(skipping)} skipping path(s), each compares the argument None with a remembered value of kind {sorted(kinds)}")
+    elif resets:
+        raise AnalysisError(f"{OUTER}: the peak search can be skipped and the routine writes the masks itself; the starting state is not analysed")
+    else:
+        l = feasible[0]
+        ck.violation("C06.R6", m.qualname, "peak search on entry can be skipped",
+                     f"with the default arguments of the rejection a path of {m.name} returns without searching (under {l.cond()}; the remembered "
+                     f"find_peaks arguments can be {sorted(kinds)}): a second rejection on the same object starts from the windows the first one "
+                     f"left, not from every window with a peak", loc=m.loc())
 
 
 def _peak_search(ck: Checker, prog: Program):
